@@ -486,6 +486,48 @@ def clique_element_order(fi, b):
     return None
 
 
+def matrix_overlap(fi, wtext, X, lookup):
+    """w = -int(OV[i, j]) with OV = M @ M.T and M = np.array([[a in cl for a in UNIVERSE] for cl in X], dtype=<number>):
+    (M M^T)[i, j] counts the common attributes - as long as M is NUMERIC; the product of a boolean matrix is a logical one (any common
+    attribute -> True -> 1).  -> (ok, why, node) or None"""
+    m = re.fullmatch(r'-(?:int\()?(\w+)\[_g0_0,_g0_1\]\)?', wtext)
+    if not m:
+        return None
+    ov = lookup(m.group(1))
+    if ov is None:
+        return None
+    M = None
+    if isinstance(ov, ast.BinOp) and isinstance(ov.op, ast.MatMult) and isinstance(ov.left, ast.Name) and U(ov.right) == ov.left.id + '.T':
+        M = ov.left.id
+    elif isinstance(ov, ast.Call) and U(ov.func).split('.')[-1] == 'dot' and len(ov.args) >= 1:
+        a0 = ov.func.value if isinstance(ov.func, ast.Attribute) and U(ov.func.value) not in ('np', 'numpy') else (ov.args[0] if ov.args else None)
+        a1 = ov.args[-1]
+        if isinstance(a0, ast.Name) and U(a1) == a0.id + '.T':
+            M = a0.id
+    if M is None:
+        return None
+    md = lookup(M)
+    if not (isinstance(md, ast.Call) and U(md.func).split('.')[-1] in ('array', 'asarray') and md.args and isinstance(md.args[0], ast.ListComp)):
+        return None
+    outer = md.args[0]
+    if len(outer.generators) != 1 or U(outer.generators[0].iter) != X or not isinstance(outer.elt, ast.ListComp) or len(outer.elt.generators) != 1:
+        return None
+    cl = U(outer.generators[0].target)
+    inner = outer.elt
+    a = U(inner.generators[0].target)
+    univ = U(inner.generators[0].iter)
+    if U(inner.elt).replace(' ', '') != '%sin%s' % (a, cl) or inner.generators[0].ifs or outer.generators[0].ifs:
+        return None
+    if univ not in ('self.domain.attrs', 'self.domain', 'self.domain.attrs()'):
+        return False, 'the membership columns range over `%s`, which need not contain every attribute of the cliques' % univ, md
+    dt = next((k.value for k in md.keywords if k.arg == 'dtype'), None)
+    numeric = dt is not None and U(dt).split('.')[-1] in ('int', 'float', 'int64', 'int32', 'float64', 'intp', 'uint8', 'int8', 'int16')
+    if not numeric:
+        return False, 'the membership matrix `%s` is built without a numeric dtype, so it is BOOLEAN and `%s` is a logical product: every non-empty ' \
+                      'intersection weighs 1, ties are broken by insertion order and the spanning tree no longer maximises the separators' % (M, U(ov)), md
+    return True, 'integer membership matrix, (M M^T)[i, j] = |c_i & c_j|', md
+
+
 def check_tree_connected(ctx):
     """the clique graph handed to minimum_spanning_tree has an edge for EVERY pair of maximal cliques, weighted by minus the size of
     the intersection.  Stated on set-builder terms: `for c1, c2 in combinations(..): G.add_edge(c1, c2, weight=w)` and
@@ -538,6 +580,34 @@ def check_tree_connected(ctx):
         return ds[0].value if len(ds) == 1 else None
     b = b.composed(lookup)
     elt, gens, conds = b.canon()
+    # pairs enumerated by POSITION: for i, j in combinations(range(len(X)), 2): edge(X[i], X[j], w(i, j))   (read off the source loop)
+    for lp_ in [n for n in ast.walk(fi.node) if isinstance(n, ast.For)]:
+        mi = re.fullmatch(r'(itertools\.)?combinations\(range\(len\((\w+)\)\),2\)', U(lp_.iter).replace(' ', ''))
+        if not mi or not (isinstance(lp_.target, ast.Tuple) and len(lp_.target.elts) == 2):
+            continue
+        X_ = mi.group(2)
+        i_, j_ = [U(e_) for e_ in lp_.target.elts]
+        adds_ = [c for c in ast.walk(lp_) if isinstance(c, ast.Call) and isinstance(c.func, ast.Attribute) and c.func.attr == 'add_edge' and U(c.func.value) == G]
+        if len(adds_) != 1 or len(lp_.body) != 1:
+            continue
+        c_ = adds_[0]
+        wkw = next((k.value for k in c_.keywords if k.arg == 'weight'), None)
+        if wkw is None or [U(a_).replace(' ', '') for a_ in c_.args[:2]] != ['%s[%s]' % (X_, i_), '%s[%s]' % (X_, j_)]:
+            continue
+        wtext = U(wkw).replace(' ', '').replace('[%s,%s]' % (i_, j_), '[_g0_0,_g0_1]')
+        verdict = matrix_overlap(fi, wtext, X_, lookup)
+        if verdict is None:
+            raise AnalysisError('_make_tree: position-indexed clique pairs with a weight `%s` this analysis cannot relate to the intersection size' % U(wkw)[:60])
+        okw, whyw, wnode = verdict
+        ctx.ob('tree-connected', fi, lp_, True,
+               'every pair of maximal cliques gets an edge (pairs enumerated by position over `%s`)' % X_, construct='edges of the complete clique graph')
+        ctx.ob('tree-connected', fi, lp_, okw,
+               'the weight of a clique pair is minus the size of its intersection, here read off a membership-matrix product: %s' % whyw,
+               construct='weight of the complete clique graph')
+        ok = len({T(t) for t in trees}) == 1
+        ctx.ob('tree-connected', fi, fi.node, ok, 'the junction tree is the spanning tree of that complete clique graph `%s`' % G,
+               construct='spanning tree of the clique graph')
+        return
     pairs = len(gens) == 1 and gens[0][0] == 2 and re.fullmatch(r'(itertools\.)?combinations\((.+),2\)', gens[0][1]) is not None
     ends = elt.startswith('(_g0_0,_g0_1,') or elt.startswith('(_g0_1,_g0_0,')
     # a filter that only excludes a pair of EQUAL cliques is vacuous (the maximal cliques of a graph are pairwise distinct)
